@@ -25,7 +25,13 @@ RULE = (
     "with explicit stored zeros inside blocks (both sub-checks) and zero-size entries in the size array; invert_diagonal_blocks with "
     "method python / numba / None. (permuted) rows and columns of the block-diagonal matrix are permuted by drawn "
     "permutations, stored as csr / csc / coo; generate_permutation_to_block_diag_matrix then "
-    "invert_permuted_block_diag_matrix. Oracle: inv @ A = I and A @ inv = I (dense, |err| <= 1e-9), inv has the "
+    "invert_permuted_block_diag_matrix. Two thirds of the cases are additionally scaled, A' = diag(10^re) A diag(10^ce): "
+    "re = per-block exponent + one global exponent + local row exponent in -3..3, ce = per-column exponent, exponents "
+    "from the classes +-3, +-8, +-15 with the extremes over-weighted (entries from 1e-47 to 1e47; the row spread "
+    "inside one block stays <= 1e6 because a larger one defeats partial pivoting - ill-conditioning of the input). "
+    "Oracle, in the well-scaled variables Y = diag(10^ce) inv diag(10^re): Y @ A = I and A @ Y = I (dense, |err| <= "
+    "1e-9) and the metamorphic relation inv(R A C) = C^-1 inv(A) R^-1 entry-wise against the block-wise inverse of "
+    "the well-scaled integer blocks, tolerance 1e-9 times the largest entry of the entry's own block; inv has the "
     "shape of A and is zero outside the blocks; returned permutations are permutations of 0..n-1, sizes are "
     "positive and sum to n, A[r][:, c] is exactly zero outside the diagonal blocks. Non-trivial = at least 2 blocks "
     "or a block of size >= 2; distinct = hash of spec."
@@ -37,12 +43,14 @@ LEVEL_TEXT = ("Exploration: thousands of generated block structures per run (siz
               "sparse blocks, csr / csc, python and numba paths, random row / column permutations), each inverse "
               "verified by multiplying back (inv*A = A*inv = I to 1e-9) and each computed permutation verified to "
               "expose square diagonal blocks.")
-LEVEL_NOTE = ("Blocks are well conditioned by construction (cond < 5e3); matrices up to 36 x 36. Stored zeros only "
+LEVEL_NOTE = ("Blocks are well conditioned by construction (cond < 5e3) up to row / column / block / global scaling by "
+              "powers of ten (1e-47 .. 1e47; row spread inside a block <= 1e6); matrices up to 36 x 36. Stored zeros only "
               "inside the generated blocks. "
               "Finds violations, does not prove absence.")
 DESIGN_REF = "DESIGN.md section 4, C37"
 ASSUMPTIONS = [
-    "blocks are nonsingular and well conditioned (cond < 5e3)",
+    "blocks are nonsingular and well conditioned (cond < 5e3) before scaling",
+    "row scaling inside one block spans at most 1e6 (larger spreads make LU with partial pivoting inaccurate: measured O(1) errors with numpy alone)",
     "matrices are csr / csc with float64 data and int32 indices (what the numba kernel is compiled for)",
     "invert_diagonal_blocks: no stored entries outside the declared diagonal blocks (stored zeros inside are generated)",
     "permuted pair: stored zeros only inside the generated blocks (they may fall outside the finer blocks the permutation finds: known finding)",
@@ -53,6 +61,8 @@ REQUIRED = {
     "method-None": 0.08, "sparse-block": 0.3, "full-block": 0.1, "unsorted-indices": 0.15, "explicit-zero": 0.05,
     "multi-block": 0.4, "single-block": 0.05, "size1-block": 0.2, "block>=4": 0.2, "scaled": 0.2,
     "zero-size-entry": 0.015, "perm-nontrivial": 0.2, "coo": 0.02, "permuted-explicit-zero": 0.03,
+    "scaled-extreme": 0.1, "scaled-extreme-large": 0.05, "scaled-extreme-small": 0.05, "scaled-columns": 0.1,
+    "scaled-global": 0.05,
 }
 
 
@@ -104,6 +114,21 @@ def _spec(draw, tier):
         s["fmt"] = draw(st.sampled_from(["csr", "csr", "csc", "csc", "coo"]))
         s["rperm"] = list(draw(st.permutations(list(range(n)))))
         s["cperm"] = list(draw(st.permutations(list(range(n)))))
+    # magnitude coverage: A' = diag(10^re) A diag(10^ce); re = per-block exponent + global exponent + local row
+    # exponent in -3..3 (a larger row spread INSIDE a block defeats partial pivoting: ill-conditioned input, not a
+    # defect), ce = per-column exponent over the whole class range
+    cls = draw(st.sampled_from([0, 0, 3, 8, 15, 15]))
+    if cls:
+        ext = st.one_of(st.sampled_from([-cls, cls]), st.sampled_from([-cls, cls, 0]), st.integers(-cls, cls))
+        s["scaling"] = {
+            "cls": cls,
+            "bexp": [draw(ext) for _ in range(nb)],
+            "rloc": draw(st.lists(st.integers(-3, 3), min_size=n, max_size=n)) if draw(st.booleans()) else [0] * n,
+            "cexp": [draw(ext) for _ in range(n)] if draw(st.sampled_from([True, True, False])) else [0] * n,
+            "gexp": draw(st.sampled_from([0, 0, -cls, cls])),
+        }
+    else:
+        s["scaling"] = None
     # order in which the stored entries are laid out (only the relative order inside a line matters)
     s["shuffle"] = draw(st.sampled_from([False, True]))
     s["key"] = draw(st.lists(st.integers(0, 9), min_size=8, max_size=8)) if s["shuffle"] else []
@@ -116,22 +141,33 @@ def strategy(tier):
 
 # ----------------------------------------------------------------------------- building
 def _assemble(spec):
-    """-> dense block diagonal matrix (float), list of (i, j, v) stored entries, block sizes."""
+    """-> (D0, entries, sizes, re, ce): D0 = well-scaled integer block-diagonal matrix (float), entries = stored
+    (i, j, v) of the matrix handed to porepy, A[i, j] = D0[i, j] * 10^(re[i] + ce[j])."""
     sizes = [b["n"] for b in spec["blocks"]]
     n = sum(sizes)
-    D = np.zeros((n, n))
+    sc = spec.get("scaling")
+    re = np.zeros(n, dtype=int)
+    ce = np.zeros(n, dtype=int)
+    off = 0
+    for k, b in enumerate(spec["blocks"]):
+        re[off:off + b["n"]] = b["scale"] + (sc["bexp"][k] + sc["gexp"] if sc else 0)
+        off += b["n"]
+    if sc:
+        re += np.array(sc["rloc"], dtype=int)
+        ce += np.array(sc["cexp"], dtype=int)
+    D0 = np.zeros((n, n))
     entries = []
     off = 0
     for b in spec["blocks"]:
-        B = block_matrix(b).astype(float) * (10.0 ** b["scale"])
+        B = block_matrix(b).astype(float)
         k = b["n"]
-        D[off:off + k, off:off + k] = B
+        D0[off:off + k, off:off + k] = B
         for i in range(k):
             for j in range(k):
                 if B[i, j] != 0 or b["store_zeros"]:
-                    entries.append([off + i, off + j, float(B[i, j])])
+                    entries.append([off + i, off + j, float(B[i, j]) * 10.0 ** int(re[off + i] + ce[off + j])])
         off += k
-    return D, entries, sizes
+    return D0, entries, sizes, re, ce
 
 
 def _ordered(entries, spec):
@@ -178,15 +214,42 @@ def warmup():
     pp.matrix_operations.invert_diagonal_blocks(A, np.array([2, 1], dtype=np.int64), method="numba")
 
 
-def _check_inverse(inv, D, tag, what):
-    n = D.shape[0]
+def _check_inverse(inv, D0, re, ce, ref, tolm, tag, what):
+    """inv must be the inverse of A = diag(10^re) D0 diag(10^ce).  Everything is compared in the well-scaled
+    variables Y = diag(10^ce) inv diag(10^re), which must be the inverse of D0: (a) Y @ D0 = D0 @ Y = I to 1e-9,
+    (b) metamorphic / reference: Y = ref (inverse of the well-scaled blocks) entry-wise, tolerance 1e-9 times the
+    largest reference entry of the entry's own block (tolm)."""
+    n = D0.shape[0]
     require(sps.issparse(inv), tag + "-type", f"{what}: result is {type(inv).__name__}")
     require(inv.shape == (n, n), tag + "-shape", f"{what}: shape {inv.shape}, expected {(n, n)}")
     Id = inv.toarray()
     require(np.all(np.isfinite(Id)), tag + "-finite", f"{what}: non-finite entries in the inverse")
-    require_close(Id @ D, np.eye(n), tag + "-left", rtol=1e-9, atol=0.0, what=f"{what}: inv @ A != I", scale=1.0)
-    require_close(D @ Id, np.eye(n), tag + "-right", rtol=1e-9, atol=0.0, what=f"{what}: A @ inv != I", scale=1.0)
+    Y = (10.0 ** ce.astype(float))[:, None] * Id * (10.0 ** re.astype(float))[None, :]
+    require_close(Y @ D0, np.eye(n), tag + "-left", rtol=1e-9, atol=0.0, what=f"{what}: inv @ A != I (scaled variables)",
+                  scale=1.0)
+    require_close(D0 @ Y, np.eye(n), tag + "-right", rtol=1e-9, atol=0.0, what=f"{what}: A @ inv != I (scaled variables)",
+                  scale=1.0)
+    bad = np.abs(Y - ref) > 1e-9 * tolm
+    if np.any(bad):
+        i, j = map(int, np.argwhere(bad)[0])
+        raise Violation(tag + "-scaling", f"{what}: entry ({i},{j}) of the inverse is {Id[i, j]:.6e}, expected "
+                                          f"{ref[i, j]:.6e} * 10^{-(int(ce[i]) + int(re[j]))} "
+                                          f"(inv(RAC) = C^-1 inv(A) R^-1), row exps {re.tolist()}, col exps {ce.tolist()}")
     return Id
+
+
+def _reference(D0, sizes):
+    """Block-wise inverse of the well-scaled matrix and, per entry, the largest |entry| of its block."""
+    n = D0.shape[0]
+    ref = np.zeros((n, n))
+    tolm = np.ones((n, n))
+    off = 0
+    for k in sizes:
+        Bi = np.linalg.inv(D0[off:off + k, off:off + k])
+        ref[off:off + k, off:off + k] = Bi
+        tolm[off:off + k, off:off + k] = np.abs(Bi).max()
+        off += k
+    return ref, tolm
 
 
 # ----------------------------------------------------------------------------- check
@@ -195,16 +258,33 @@ def check(spec):
 
     mo = pp.matrix_operations
     fn = spec["fn"]
-    D, entries, sizes = _assemble(spec)
+    D, entries, sizes, re, ce = _assemble(spec)  # D is the well-scaled integer matrix
     n = D.shape[0]
+    ref, tolm = _reference(D, sizes)
     labels = {fn, spec["fmt"]}
     labels.add("multi-block" if len(sizes) > 1 else "single-block")
     if 1 in sizes:
         labels.add("size1-block")
     if max(sizes) >= 4:
         labels.add("block>=4")
-    if any(b["scale"] != 0 for b in spec["blocks"]):
+    tot = [int(re[e[0]] + ce[e[1]]) for e in entries]
+    if any(t != 0 for t in tot):
         labels.add("scaled")
+    if spec.get("scaling"):
+        sc = spec["scaling"]
+        labels.add(f"scaling-class-{sc['cls']}")
+        if max(abs(t) for t in tot) >= 12:
+            labels.add("scaled-extreme")
+        if max(tot) >= 12:
+            labels.add("scaled-extreme-large")
+        if min(tot) <= -12:
+            labels.add("scaled-extreme-small")
+        if sc["gexp"]:
+            labels.add("scaled-global")
+        if any(sc["cexp"]):
+            labels.add("scaled-columns")
+        if any(sc["rloc"]):
+            labels.add("scaled-rows-local")
     off = 0
     for b in spec["blocks"]:
         k = b["n"]
@@ -237,7 +317,7 @@ def check(spec):
         A0 = A.copy()
         inv = mo.invert_diagonal_blocks(A, np.array(sz, dtype=np.int64), method=method)
         what = f"invert_diagonal_blocks({spec['fmt']}, sizes={sz}, method={method})"
-        Id = _check_inverse(inv, D, "blockinv", what)
+        Id = _check_inverse(inv, D, re, ce, ref, tolm, "blockinv", what)
         mask = np.zeros((n, n), dtype=bool)
         off = 0
         for k in sizes:
@@ -252,7 +332,7 @@ def check(spec):
         # A[i, j] = D[rp[i], cp[j]]  <=> entry (r, c) of D goes to (rinv[r], cinv[c])
         rinv = np.argsort(rp)
         cinv = np.argsort(cp)
-        Ad = D[rp][:, cp]
+        Ad = ((10.0 ** re.astype(float))[:, None] * D * (10.0 ** ce.astype(float))[None, :])[rp][:, cp]
         ent = _ordered([[int(rinv[e[0]]), int(cinv[e[1]]), e[2]] for e in entries], spec)
         mspec = {"shape": [n, n], "fmt": spec["fmt"], "entries": ent}
         A = build_sparse(mspec)
@@ -283,7 +363,9 @@ def check(spec):
         elif bs.size < len(sizes):
             labels.add("coarser-than-generated")
         inv = mo.invert_permuted_block_diag_matrix(A, r, c, bs)
-        _check_inverse(inv, Ad, "perminv", f"invert_permuted_block_diag_matrix(A={Ad.tolist()}, {what})")
+        # A = Pr (R D C) Pc  ->  the well-scaled matrix, the exponents and the reference are permuted alike
+        _check_inverse(inv, D[rp][:, cp], re[rp], ce[cp], ref[cp][:, rp], tolm[cp][:, rp], "perminv",
+                       f"invert_permuted_block_diag_matrix(A={Ad.tolist()}, {what})")
     else:
         raise Violation("unknown-fn", fn)
     nontrivial = len(sizes) >= 2 or max(sizes) >= 2
